@@ -40,29 +40,6 @@ theorem i2u_normalizeRollIndex (n x : Nat) (shift : Int) (hn : 0 < n) :
   rw [normalizeRollIndex_eq n _ hn, i2u_of_nonneg _ (Int.emod_nonneg _ (by omega))]
   rfl
 
-theorem normalizeAxis1_some (axis : Int) (n k : Nat) (h : normalizeAxis1 axis n = some k) :
-    k < n ∧ posPy n axis = some k := by
-  unfold normalizeAxis1 at h
-  split at h
-  · simp at h
-  · rename_i hr
-    split at h
-    · rename_i hneg
-      simp only [Option.some.injEq] at h
-      subst h
-      refine ⟨by omega, ?_⟩
-      rw [posPy_neg n axis hneg (by omega)]
-    · rename_i hneg
-      simp only [Option.some.injEq] at h
-      subst h
-      refine ⟨by omega, ?_⟩
-      have : ¬ axis < 0 := hneg
-      simp [posPy, this]
-
-theorem normalizeAxis1_none (axis : Int) (n : Nat) (h : axis < -(n : Int) ∨ (n : Int) ≤ axis) :
-    normalizeAxis1 axis n = none := by
-  simp [normalizeAxis1, h]
-
 /-- one accepted axis: the loop writes `rollSrc` at the normalised position -/
 theorem indexRollU_single (s : Shape) (d : Idx) (shift axis : Int) (k : Nat)
     (hk : normalizeAxis1 axis s.length = some k) (hd : InShape d s) :
@@ -86,41 +63,59 @@ inductive AxesNorm (n : Nat) : List Int → List Nat → Prop
   | cons {ax : Int} {k : Nat} {axes : List Int} {ks : List Nat} :
       normalizeAxis1 ax n = some k → AxesNorm n axes ks → AxesNorm n (ax :: axes) (k :: ks)
 
-/-- one step of the axis loop on accepted arguments -/
-theorem indexRollLoop_cons (s : Shape) (d : Idx) (hd : InShape d s) (ax : Int) (axes : List Int) (sh : Int) (shifts : List Int)
-    (res : Idx) (hres : res.length = d.length) (k : Nat) (hk : normalizeAxis1 ax s.length = some k)
-    (n x : Nat) (hn : s[k]? = some n) (hx : d[k]? = some x) :
-    indexRollLoop s d (ax :: axes) (sh :: shifts) res =
-      indexRollLoop s d axes shifts (res.set k (rollSrc n x sh)) := by
-  obtain ⟨hkn, hpos⟩ := normalizeAxis1_some ax _ k hk
-  have hl := hd.length_eq
-  have hkd : k < d.length := by omega
-  have e1 : s[k] = n := by simpa [hkn] using hn
-  have e2 : d[k] = x := by simpa [hkd] using hx
-  have hxk : x < n := by
-    have := ((inShape_iff_forall _ _).1 hd).2 k hkd hkn
-    omega
-  simp only [indexRollLoop, atPy, hpos, hl, Option.bind_some, hn, hx, setPy, hres]
-  rw [i2u_normalizeRollIndex n x sh (by omega)]
+/-- NumPy adds up the shifts of an axis that is listed more than once: total shift of axis `j` -/
+def shiftSum : List Nat → List Int → Nat → Int
+  | k :: ks, sh :: shs, j => (if k = j then sh else 0) + shiftSum ks shs j
+  | _, _, _ => 0
 
-/-- the axis loop with pairwise distinct accepted axes: every listed axis gets NumPy's source position, the others are copied -/
-theorem indexRollLoop_spec (s : Shape) (d : Idx) (hd : InShape d s) :
-    ∀ (axes : List Int) (ks : List Nat) (shifts : List Int) (res : Idx),
+theorem rollSrc_zero (n x : Nat) (h : x < n) : rollSrc n x 0 = x := by
+  unfold rollSrc
+  rw [Int.sub_zero, Int.emod_eq_of_lt (by omega) (by omega)]
+  simp
+
+/-- rolling twice is rolling by the sum -/
+theorem rollSrc_rollSrc (n x : Nat) (a b : Int) (hn : 0 < n) : rollSrc n (rollSrc n x a) b = rollSrc n x (a + b) := by
+  unfold rollSrc
+  have h1 := Int.emod_nonneg ((x : Int) - a) (by omega : (n : Int) ≠ 0)
+  rw [Int.toNat_of_nonneg h1]
+  congr 1
+  rw [Int.sub_emod, Int.emod_emod_of_dvd _ (Int.dvd_refl _), ← Int.sub_emod]
+  congr 1
+  omega
+
+/-- one step of the axis loop on accepted arguments: the partial result is rolled once more -/
+theorem indexRollLoop_cons (s : Shape) (d : Idx) (ax : Int) (axes : List Int) (sh : Int) (shifts : List Int)
+    (res : Idx) (hres : res.length = s.length) (k : Nat) (hk : normalizeAxis1 ax s.length = some k)
+    (n y : Nat) (hn : s[k]? = some n) (hpos : 0 < n) (hy : res[k]? = some y) :
+    indexRollLoop s d (ax :: axes) (sh :: shifts) res =
+      indexRollLoop s d axes shifts (res.set k (rollSrc n y sh)) := by
+  obtain ⟨hkn, hp⟩ := normalizeAxis1_some ax _ k hk
+  simp only [indexRollLoop, atPy, hp, hres, Option.bind_some, hn, hy, setPy]
+  rw [i2u_normalizeRollIndex n y sh hpos]
+
+/-- the axis loop on accepted axes (repeats allowed): coordinate `j` ends up rolled by the SUM of the shifts listed
+    for axis `j` (0 for an axis that is not listed) — NumPy's rule -/
+theorem indexRollLoop_sum (s : Shape) (d : Idx) (hd : InShape d s) :
+    ∀ (axes : List Int) (ks : List Nat) (shifts : List Int) (res : Idx) (acc : Nat → Int),
       AxesNorm s.length axes ks →
       shifts.length = axes.length →
       res.length = d.length →
+      (∀ j, j < d.length → ∃ n x : Nat, s[j]? = some n ∧ d[j]? = some x ∧ res[j]? = some (rollSrc n x (acc j))) →
       ∃ r, indexRollLoop s d axes shifts res = some r ∧ r.length = d.length ∧
-        ∀ j, (j ∉ ks → r[j]? = res[j]?) ∧
-          (ks.Nodup → ∀ (i : Nat) (sh : Int), ks[i]? = some j → shifts[i]? = some sh →
-            ∃ n x : Nat, s[j]? = some n ∧ d[j]? = some x ∧ r[j]? = some (rollSrc n x sh)) := by
+        ∀ j, j < d.length → ∃ n x : Nat, s[j]? = some n ∧ d[j]? = some x ∧
+          r[j]? = some (rollSrc n x (acc j + shiftSum ks shifts j)) := by
+  have hl := hd.length_eq
   intro axes
   induction axes with
   | nil =>
-    intro ks shifts res hf _ hres
+    intro ks shifts res acc hf _ hres hinv
     cases hf
-    exact ⟨res, by simp [indexRollLoop], hres, fun j => ⟨fun _ => rfl, fun _ i sh hi => by simp at hi⟩⟩
+    refine ⟨res, by simp [indexRollLoop], hres, ?_⟩
+    intro j hj
+    obtain ⟨n, x, h1, h2, h3⟩ := hinv j hj
+    exact ⟨n, x, h1, h2, by simpa [shiftSum] using h3⟩
   | cons ax axes ih =>
-    intro ks shifts res hf hlen hres
+    intro ks shifts res acc hf hlen hres hinv
     cases hf with
     | cons hk hf' =>
       rename_i k ks'
@@ -128,28 +123,36 @@ theorem indexRollLoop_spec (s : Shape) (d : Idx) (hd : InShape d s) :
       | nil => simp at hlen
       | cons sh shifts' =>
         obtain ⟨hkn, _⟩ := normalizeAxis1_some ax _ k hk
-        have hn : s[k]? = some s[k] := by simp [hkn]
-        have hl := hd.length_eq
         have hkd : k < d.length := by omega
-        have hx : d[k]? = some d[k] := by simp [hkd]
-        rw [indexRollLoop_cons s d hd ax axes sh shifts' res hres k hk s[k] d[k] hn hx]
-        obtain ⟨r, hr, hrl, hspec⟩ := ih ks' shifts' (res.set k (rollSrc s[k] d[k] sh)) hf' (by simpa using hlen) (by simpa using hres)
-        refine ⟨r, hr, hrl, fun j => ⟨?_, ?_⟩⟩
-        · intro hj
-          simp only [List.mem_cons, not_or] at hj
-          rw [(hspec j).1 hj.2, List.getElem?_set]
-          simp [Ne.symm hj.1]
-        · intro hnd i sh'' hi hs
-          simp only [List.nodup_cons] at hnd
-          cases i with
-          | zero =>
-            simp only [List.getElem?_cons_zero, Option.some.injEq] at hi hs
-            subst hi hs
-            refine ⟨s[k], d[k], hn, hx, ?_⟩
-            rw [(hspec k).1 hnd.1, List.getElem?_set]
-            simp [hres, hkd]
-          | succ i =>
-            exact (hspec j).2 hnd.2 i sh'' (by simpa using hi) (by simpa using hs)
+        obtain ⟨n, x, hn, hx, hy⟩ := hinv k hkd
+        have hxn : x < n := by
+          have := ((inShape_iff_forall _ _).1 hd).2 k hkd hkn
+          have e1 : s[k] = n := by simpa [hkn] using hn
+          have e2 : d[k] = x := by simpa [hkd] using hx
+          omega
+        rw [indexRollLoop_cons s d ax axes sh shifts' res (by omega) k hk n _ hn (by omega) hy]
+        rw [rollSrc_rollSrc n x (acc k) sh (by omega)]
+        obtain ⟨r, hr, hrl, hspec⟩ := ih ks' shifts' (res.set k (rollSrc n x (acc k + sh)))
+          (fun j => acc j + (if k = j then sh else 0)) hf' (by simpa using hlen) (by simpa using hres)
+          (by
+            intro j hj
+            by_cases hkj : k = j
+            · subst hkj
+              refine ⟨n, x, hn, hx, ?_⟩
+              rw [List.getElem?_set]
+              simp [hres, hkd]
+            · obtain ⟨n', x', h1, h2, h3⟩ := hinv j hj
+              refine ⟨n', x', h1, h2, ?_⟩
+              rw [List.getElem?_set]
+              simp [hkj, h3])
+        refine ⟨r, hr, hrl, ?_⟩
+        intro j hj
+        obtain ⟨n', x', h1, h2, h3⟩ := hspec j hj
+        refine ⟨n', x', h1, h2, ?_⟩
+        rw [h3]
+        congr 2
+        simp only [shiftSum]
+        omega
 
 end NmVerif.Index
 
